@@ -39,6 +39,8 @@ DevCfg(c) == [RefCfg(c) EXCEPT !.devHeadSkip = TRUE]
 
 (* ------------------------------------------------------------------------ *)
 SoftNames(st, kind) == LET x == Softs(st, kind) IN [i \in 1..Len(x) |-> x[i].name]
+\* rules that fired in one of the first k messages (a deviation is only reported for a message the code delivered)
+SoftNamesUpTo(st, kind, k) == LET x == SelectSeq(st.soft, LAMBDA y : y.kind = kind /\ y.m <= k) IN [i \in 1..Len(x) |-> x[i].name]
 HasSoft(st, name) == \E i \in 1..Len(st.soft) : st.soft[i].name = name
 Hdrs(m) == [i \in 1..Len(m.fields) |-> <<m.fields[i][1], m.fields[i][2]>>]
 AsciiOnly(q) == AllB(q, LAMBDA b : b < 128)
@@ -112,7 +114,7 @@ HasBlockEnd(q, from, n) ==
 PendingReject(st, q, n) ==
     /\ st.phase = "rejected" /\ ~st.over
     /\ st.rejPhase \in {"start", "fields", "trailers"}
-    /\ ~HasBlockEnd(q, st.rejectAt - 2, n)
+    /\ ~HasBlockEnd(q, st.rejectAt, n)        \* an empty line after the terminator of the rejected line
 
 (* C10: work and retention bounds on the instrumented calls of this run.
    call = <<bytesInCall, retainedBefore, tailAfter, linesAfter, work, raised>>
@@ -155,8 +157,8 @@ JudgeParse(st, q, n, e, cfg) ==
         part == Partial(st) \/ (~e.fedEof /\ st.phase = "eofbody")
         E == Effective(e.msgs)
         rej == ImplRejected(e)
-        devNames == SoftNames(st, "dev")
-        altNames == SoftNames(st, "alt")
+        devNames == SoftNamesUpTo(st, "dev", Len(E))
+        altNames == SoftNamesUpTo(st, "alt", Len(E))
         mc == MsgsClause(st, R, E, 1, cfg, q, n, part)
         cc == CallsClause(e, cfg)
         res(b, d, f) == [bad |-> b, devs |-> d, drift |-> f]
@@ -257,8 +259,8 @@ JudgeConn(st, q, n, e, cfg) ==
         nerr == Cardinality({i \in 1..Len(codes) : codes[i] >= 400})
         lastCode == IF Len(codes) = 0 THEN 0 ELSE codes[Len(codes)]
         dc == DispClause(st, R, D, 1)
-        devNames == SoftNames(st, "dev")
-        altNames == SoftNames(st, "alt")
+        devNames == SoftNamesUpTo(st, "dev", Len(D))
+        altNames == SoftNamesUpTo(st, "alt", Len(D))
         res(b, d, f) == [bad |-> b, devs |-> d, drift |-> f]
         inBody == st.cur.delivered
     IN
@@ -272,7 +274,8 @@ JudgeConn(st, q, n, e, cfg) ==
         THEN res("", <<>>, <<"RejectPending">>)
     ELSE IF fin = "reject" THEN
         IF ~e.closed THEN res("MalformedNotClosed", <<>>, <<st.reason>>)
-        ELSE IF nerr = 0 THEN res("MalformedNoErrorResponse", <<>>, <<st.reason>>)
+        ELSE IF nerr = 0 THEN
+            IF st.rejObs THEN res("", <<"ErrorTextNotEncodable">>, <<>>) ELSE res("MalformedNoErrorResponse", <<>>, <<st.reason>>)
         ELSE IF nerr > 1 THEN res("SeveralErrorResponses", <<>>, <<>>)
         ELSE IF lastCode < 400 THEN res("ResponseAfterError", <<>>, <<>>)
         ELSE IF lastCode >= 500 THEN
@@ -335,12 +338,20 @@ GroupClause(st, q, n, evs, cfg) ==
             THEN [bad |-> "", devs |-> <<>>]                                                       \* one read of slack
        ELSE IF st.headBody THEN [bad |-> "", devs |-> <<"HeadRequestBodySkipped">>]
        ELSE IF dis /\ ((st.phase = "closed" /\ st.tailFrom <= n) \/ \E i \in 1..Len(evs) : evs[i].excAfterClose)
-            THEN [bad |-> "", devs |-> <<"DataAfterCloseSegDependent">>]
+            THEN \* named only when the PARSER's verdict differs; on a connection nothing after the closing request is
+                 \* dispatched either way
+                 IF \E i, j \in 1..N : i < j /\ evs[i].kind = evs[j].kind /\ evs[i].kind # "conn" /\ vd[i] # vd[j]
+                 THEN [bad |-> "", devs |-> <<"DataAfterCloseSegDependent">>] ELSE [bad |-> "", devs |-> <<>>]
+       ELSE IF st.rejObs THEN [bad |-> "", devs |-> <<"ErrorTextNotEncodable">>]   \* no 400 at all, so "rejected" looks like "accepted"
        ELSE IF dis /\ st.reason \in {"ChunkDataCRCRLF", "TrailerLeadingCR"} THEN [bad |-> "", devs |-> <<"LaxChunkCRSegDependent">>]
        ELSE IF \E i \in 1..Len(evs) : evs[i].pendingInput THEN [bad |-> "", devs |-> <<"StalePauseStall">>]
        ELSE IF st.between THEN [bad |-> "", devs |-> <<"LimitByCallPosition">>]
        ELSE IF dis /\ st.tight THEN [bad |-> "", devs |-> <<"LimitCutBeforeLF">>]
-       ELSE IF dis /\ HasSoft(st, "TargetCTLAccepted") THEN [bad |-> "", devs |-> <<"TargetCTLAccepted">>]
+       ELSE IF dis /\ \E i \in 1..N : /\ ~vd[i] /\ evs[i].kind # "conn"
+                                        /\ \E k \in 1..Len(st.soft) : st.soft[k].name = "TargetCTLAccepted"
+                                                                         /\ st.soft[k].m <= Len(evs[i].msgs)
+            THEN [bad |-> "", devs |-> <<"TargetCTLAccepted">>]     \* some run delivered the request whose target holds the LF
+       ELSE IF dis /\ HasSoft(st, "TargetCTLAccepted") THEN [bad |-> "", devs |-> <<>>]   \* noticed early vs. pending
        ELSE [bad |-> IF dis THEN "SegmentationVerdict" ELSE IF diff THEN "SegmentationMessages" ELSE "SegmentationPrefix",
              devs |-> <<>>]
 
